@@ -139,6 +139,16 @@ s_harness! { fn c20_m4_k10() { fault_shape_m4(10) } }
 s_harness! { fn c20_m5_k00() { fault_shape_m5(0, 0) } }
 s_harness! { fn c20_m5_k01() { fault_shape_m5(1, 0) } }
 s_harness! { fn c20_m5w_k00() { fault_shape_m5(0, 1) } }
+s_harness! { fn c20_r_k00() { fault_shape_r(0) } }
+s_harness! { fn c20_r_k01() { fault_shape_r(1) } }
+s_harness! { fn c20_r_k02() { fault_shape_r(2) } }
+s_harness! { fn c20_r_k03() { fault_shape_r(3) } }
+s_harness! { fn c20_r_k04() { fault_shape_r(4) } }
+s_harness! { fn c20_r_k05() { fault_shape_r(5) } }
+s_harness! { fn c20_r_k06() { fault_shape_r(6) } }
+s_harness! { fn c20_r_k07() { fault_shape_r(7) } }
+s_harness! { fn c20_r_k08() { fault_shape_r(8) } }
+s_harness! { fn c20_r_k09() { fault_shape_r(9) } }
 s_harness! { fn c20_m0_k00() { fault_shape_m0(0, 0) } }
 s_harness! { fn c20_m0_k01() { fault_shape_m0(1, 0) } }
 s_harness! { fn c20_m0w_k00() { fault_shape_m0(0, 1) } }
